@@ -100,9 +100,12 @@ def generate(seed, batch):
     rng = rng_for(seed, 'C11', batch)
     scen = {'prop': PROP, 'seed': seed, 'batch': batch}
     scen['c'] = {'seed': rng.getrandbits(32), 'kind': rng.choice(['gauss', 'gauss', 'single-w', 'sparse']),
-                 'scale': 10 ** rng.uniform(-5, -1),
-                 'layout': rng.choice(['C', 'C', 'strided', 'column', 'float32', 'list'])}
+                 # amplitudes in consistent units: from a few thicknesses down to the response to a unit load in SI units
+                 'scale': 10 ** rng.choice([rng.uniform(-5, -1), rng.uniform(-5, -1), rng.uniform(-13, -5), rng.uniform(-1, 2)]),
+                 'layout': rng.choice(['C', 'C', 'strided', 'column', 'float32', 'list', 'readonly'])}
     scen['NLterms'] = rng.random() < 0.5
+    scen['reuse_buffer'] = rng.random() < 0.3
+    scen['plot_between'] = rng.random() < 0.25
     scen['perm_seed'] = rng.getrandbits(32)
     if batch == 'P':
         scen['host'] = 'panel'
@@ -297,14 +300,19 @@ def make_c(spec, size, dofs):
             keep[rng.integers(0, size)] = True
         c *= keep
     lay = spec.get('layout', 'C')
-    if lay == 'C':
+    if lay in ('C', 'readonly'):
         # contiguous float64, handed to the kernels without a copy: it lives inside a larger buffer whose remainder holds
         # a fixed pattern, so that a read outside the vector picks up the same numbers in every interpreter
         pad = 4 * size + 64
         big = np.empty(2 * pad + size)
         big[:] = 7.0e3 + np.arange(big.size) % 13
         big[pad:pad + size] = c
-        return big[pad:pad + size]
+        out = big[pad:pad + size]
+        if lay == 'readonly':
+            # e.g. a memory-mapped result file or a broadcast view: the package may refuse it, but if it answers, the
+            # answer is the field of these amplitudes
+            out.flags.writeable = False
+        return out
     c = np.ascontiguousarray(c)
     if lay == 'strided':
         big = np.zeros(2 * size)
@@ -479,7 +487,7 @@ def check_against_reference(qname, names, got, ref, wrong, ctx, res):
         raise
 
 
-def run_panel_like(scen, res, log, obj, caller, c, xs, ys, dofs, r, F, set_workers, ctx):
+def run_panel_like(scen, res, log, obj, caller, c, xs, ys, dofs, r, F, set_workers, ctx, real_c=None):
     """obj: object with Panel-like geometry attributes; caller(q, c, xs, ys, nl) -> dict of arrays."""
     import numpy as np
     nl = scen['NLterms']
@@ -557,6 +565,36 @@ def run_panel_like(scen, res, log, obj, caller, c, xs, ys, dofs, r, F, set_worke
             bump(res['probes'], 'G4_checked')
             if npts == 1:
                 bump(res['probes'], 'single_point')
+    # G9: the caller re-uses its amplitude buffer - the SAME array object, new content of equal norm (an eigenmode with its
+    # sign flipped in place).  The displacement field is linear in the amplitudes, and negation is exact in floating point:
+    # the new field must be exactly minus the old one.
+    rc = c if real_c is None else real_c
+    if scen.get('reuse_buffer') and real_c is not False and isinstance(rc, np.ndarray) and rc.dtype == np.float64 and rc.flags.writeable:
+        set_workers(scen['workers'][0])
+        try:
+            first = caller('uvw', c, xs, ys, nl)
+        except Violation:
+            raise
+        except Exception:
+            first = None
+        if first is not None:
+            keep = {nm: np.array(first[nm], dtype=float, copy=True) for nm in UVW}
+            twin_c = rc is not c and isinstance(c, np.ndarray) and not np.shares_memory(rc, c)
+            rc *= -1.0
+            if twin_c:
+                c *= -1.0
+            try:
+                second = caller('uvw', c, xs, ys, nl)
+                for nm in UVW:
+                    if not np.array_equal(np.asarray(second[nm], dtype=float), -keep[nm]):
+                        raise Violation('G9-buffer-reuse', dict(ctx, quantity=nm, quantity_call='uvw',
+                                                                why='after the amplitude array was negated in place, the reported field is not '
+                                                                    'minus the previous one (the result does not follow the content of the array)'))
+            finally:
+                rc *= -1.0
+                if twin_c:
+                    c *= -1.0
+            bump(res['probes'], 'G9_buffer_reuse_checked')
 
 
 def execute(scen):
@@ -613,6 +651,36 @@ def execute(scen):
             ctx = {'host': 'panel', 'model': d['model']}
             run_panel_like(scen, res, log, p, caller, c, gx, gy, dofs, p.r, Fgiven if Fgiven is not None else F,
                            set_workers, ctx)
+            if pts['kind'] == 'grid2d' and scen.get('plot_between') and xs is not None and np.asarray(xs).ndim == 2 \
+                    and min(np.asarray(xs).shape) >= 2 and isinstance(xs, np.ndarray) and xs.dtype == np.float64:
+                # G10: a deformed contour plot on the caller's own 2-D point arrays between two field queries: the arrays and
+                # the fields reported for them stay what they were
+                import matplotlib
+                matplotlib.use('Agg')
+                import matplotlib.pyplot as plt
+                set_workers(scen['workers'][0])
+                try:
+                    before = caller('uvw', c, xs, ys, False)
+                except Violation:
+                    raise
+                except Exception:
+                    before = None
+                if before is not None:
+                    keepb = {nm: np.array(before[nm], copy=True) for nm in UVW}
+                    hx, hy = sha_bytes(np.ascontiguousarray(xs).tobytes()), sha_bytes(np.ascontiguousarray(ys).tobytes())
+                    try:
+                        p.plot(c, vec='w', xs=xs, ys=ys, deform_u=True, deform_u_sf=30., filename='g10.png', dpi=20)
+                    except Exception as e:
+                        bump(res['exceptions'], 'plot_' + type(e).__name__)
+                    finally:
+                        plt.close('all')
+                    if sha_bytes(np.ascontiguousarray(xs).tobytes()) != hx or sha_bytes(np.ascontiguousarray(ys).tobytes()) != hy:
+                        raise Violation('G6-inputs', dict(ctx, why='a deformed contour plot modified the point arrays passed in', quantity_call='plot'))
+                    after = caller('uvw', c, xs, ys, False)
+                    for nm in UVW:
+                        same_bytes(nm, after[nm], keepb[nm], 'G10-plot-between', dict(ctx, quantity_call='uvw',
+                                   why='the field reported for the same amplitudes and points changed after a contour plot'))
+                    bump(res['probes'], 'G10_plot_between_checked')
             if pts['kind'] == 'grid2d' and pts.get('then_default') and xs is not None:
                 # a default-grid query right after an explicit 2-D query of the same shape on the same object:
                 # nothing of the previous point set may be reused
@@ -749,6 +817,14 @@ def execute(scen):
             raise HarnessError('host')
     except Violation as v:
         settle(res, v, getattr(v, 'known_id', None))
+    except ValueError as e:
+        # a read-only amplitude vector may be refused by the kernels ("buffer source array is read-only"); that is a
+        # consistent answer, not a field.  Anything else is the harness' problem.
+        if scen['c'].get('layout') == 'readonly' and 'read-only' in str(e):
+            bump(res['exceptions'], 'readonly_vector_refused')
+            log.add('refused', 'read-only amplitude vector')
+        else:
+            raise
     res['signature'] = sorted(set(sigs))[:6]
     res['digest'] = log.digest()
     return res
@@ -861,12 +937,13 @@ def execute_bay(scen, res, log, sigs, ompenv):
     if not explicit:
         ctx['no_explicit_points'] = True
     # reference uses the component's own slice of the global vector
-    cslice = np.ascontiguousarray(np.asarray(c, dtype=float)[lo:hi])
+    cslice = np.array(np.asarray(c, dtype=float)[lo:hi], dtype=float, copy=True)
 
     def caller3(q, c_, xs_, ys_, nl):
         return caller2(q, c, xs_, ys_, nl)
     try:
-        run_panel_like(scen2, res, log, comp, caller3, cslice, gx, gy, 3, None, None, set_workers, ctx)
+        run_panel_like(scen2, res, log, comp, caller3, cslice, gx, gy, 3, None, None, set_workers, ctx,
+                       real_c=c if isinstance(c, np.ndarray) else False)   # (False: the caller's vector is not an array, no G9)
     except Violation as v:
         if v.invariant == 'G1-series':
             v.invariant = 'G5-slices'
